@@ -73,7 +73,24 @@ fn gen_arena<const K: usize>(r: &mut Rng) -> (Tree<u32, K>, usize, usize) {
             let nodes: Vec<TreeIndex> = t.node_indices().collect();
             let p = nodes[r.below(nodes.len())];
             let label = r.below(K);
-            if t.tree_node(p).unwrap().children[label].is_some() {
+            // the other two removing operations of graph.rs, as a caller may use them on their own
+            let mode = r.below(6);
+            if mode == 0 && t.num_children(p) > 0 {
+                let before: Vec<TreeIndex> = t.node_indices().collect();
+                let _ = t.remove_all_descendants(p);
+                for i in before {
+                    if !t.contains(i) {
+                        freed.push(i);
+                        removed += 1;
+                    }
+                }
+            } else if mode == 1 && t.num_children(p) == 1 && t.get_root_idx() != p {
+                let l = (0..K).find(|l| t.tree_node(p).unwrap().children[*l].is_some()).unwrap();
+                if t.merge_child_with_parent(p, l).is_ok() {
+                    freed.push(p);
+                    removed += 1;
+                }
+            } else if t.tree_node(p).unwrap().children[label].is_some() {
                 let before: Vec<TreeIndex> = t.node_indices().collect();
                 t.remove_child(p, label);
                 for i in before {
